@@ -237,3 +237,19 @@ func VerifC08_dsl_accumulate_from_unset() {
 	}
 	verifReach("C08/dsl/accumulate/end")
 }
+
+// one record through any verb; the emitted records
+func verifPutRunAny(tr RecordTransformer, rec *mlrval.Mlrmap) []*mlrval.Mlrmap {
+	ctx := types.NewContext()
+	idc, odc := make(chan bool, 1), make(chan bool, 8)
+	out := []*types.RecordAndContext{}
+	verifAssert(tr.Transform(types.NewRecordAndContext(rec, ctx), &out, idc, odc) == nil, "verb/transform-ok")
+	tr.Transform(types.NewEndOfStreamMarker(ctx), &out, idc, odc)
+	var res []*mlrval.Mlrmap
+	for _, o := range out {
+		if o.Record != nil {
+			res = append(res, o.Record)
+		}
+	}
+	return res
+}
